@@ -160,7 +160,7 @@ def lean_obligations(ctx, extra_targets=()):
     return ok and not bad and len(discharged) == len(names)
 
 
-def run_driver(lines, jobs=NCPU):
+def run_driver(lines, jobs=NCPU, weights=None):
     """Pipe protocol lines to the model driver (several processes), keep order."""
     if not lines:
         return []
@@ -169,8 +169,18 @@ def run_driver(lines, jobs=NCPU):
         if not ok:
             raise RuntimeError("cannot build qdriver:\n" + log[-2000:])
     n = len(lines)
-    jobs = max(1, min(jobs, (n + 199) // 200))
-    chunks = [lines[i * n // jobs:(i + 1) * n // jobs] for i in range(jobs)]
+    wt = weights if weights is not None else [len(l) for l in lines]
+    total = sum(wt)
+    jobs = max(1, min(jobs, n, total // 20000 + 1))
+    # balance by size (longest first, into the lightest bin); order restored afterwards
+    order = sorted(range(n), key=lambda i: -wt[i])
+    bins = [[] for _ in range(jobs)]
+    load = [0] * jobs
+    for i in order:
+        b = load.index(min(load))
+        bins[b].append(i)
+        load[b] += wt[i] + 50
+    chunks = [[lines[i] for i in b] for b in bins]
 
     def work(chunk):
         p = subprocess.run([DRIVER], input="\n".join(chunk) + "\n", capture_output=True, text=True)
@@ -185,7 +195,11 @@ def run_driver(lines, jobs=NCPU):
 
     with ThreadPoolExecutor(jobs) as ex:
         outs = list(ex.map(work, chunks))
-    return [o for c in outs for o in c]
+    res = [None] * n
+    for b, o in zip(bins, outs):
+        for i, v in zip(b, o):
+            res[i] = v
+    return res
 
 
 # ----------------------------------------------------------------------------- wire encoding of tensors
